@@ -139,8 +139,10 @@ def gen_plan(seed, idx):
         a = {"t": t, "cs": r.next() >> 1}
         if PT.is_array(t):
             k = r.weighted([(55, "direct"), (20, "masked"), (10, "readonly"), (8, "alias"), (7, "unmasked")])
+            if k == "direct" and t in STRIDED and STRIDED[t] and r.chance(0.25):
+                k = "strided"
             if k == "alias":
-                prev = [j for j in range(i) if e["args"][j] == t and args[j]["kind"] in ("direct", "masked", "readonly")]
+                prev = [j for j in range(i) if e["args"][j] == t and args[j]["kind"] in ("direct", "masked", "readonly", "strided")]
                 k = "direct"
                 if prev:
                     a["alias_of"] = r.choice(prev)
@@ -259,7 +261,54 @@ def embed_contents(plan):
             n = a0["n"] + a0.get("extra", 0) + a.get("um_extra", 0)
         et = PT.ARRAYS[t]
         a["elems"] = [list(et.flat(x)) for x in gen_array_elems(t, n, a["cs"], mode, affine)]
+        if a["kind"] == "strided":
+            choices = STRIDED[t]
+            ptype = choices[(a["cs"] >> 3) % len(choices)][0]
+            pt = PT.ARRAYS[ptype]
+            a["filler"] = [list(pt.flat(x)) for x in gen_array_elems(ptype, n, a["cs"] ^ 0x7F4A7C15, "scaled" if mode == "nz" else mode, False)]
     return p2
+
+
+# strided operands: a component view of a wider array (v3fArray.x, boxArray.min): same element type, stride > 1
+STRIDED = {
+    "FloatArray": [("V3fArray", "x", 0, 3), ("V2fArray", "y", 1, 2), ("C4fArray", "a", 3, 4), ("QuatfArray", "r", 0, 4), ("C3fArray", "b", 2, 3)],
+    "DoubleArray": [("V3dArray", "z", 2, 3), ("QuatdArray", "x", 1, 4), ("V2dArray", "x", 0, 2)],
+    "IntArray": [("V3iArray", "y", 1, 3), ("V2iArray", "x", 0, 2)],
+    "ShortArray": [("V3sArray", "x", 0, 3), ("V2sArray", "y", 1, 2)],
+    "UnsignedCharArray": [("C3cArray", "g", 1, 3), ("C4cArray", "r", 0, 4)],
+    "V3fArray": [("Box3fArray", "min", 0, 2), ("Box3fArray", "max", 1, 2)],
+    "V3dArray": [("Box3dArray", "max", 1, 2)],
+    "V2fArray": [("Box2fArray", "min", 0, 2)],
+    "V2dArray": [("Box2dArray", "max", 1, 2)],
+    "V3iArray": [("Box3iArray", "min", 0, 2)],
+    "V2iArray": [("Box2iArray", "max", 1, 2)],
+    "V3sArray": [("Box3sArray", "min", 0, 2)],
+}
+STRIDED = {k: [x for x in v if hasattr(imath, x[0])] for k, v in STRIDED.items()}
+
+
+def strided_view(a, t, n, cs, mode, affine):
+    """(parent array, view): the view selects component/half `c` of every parent element and equals the wanted elements"""
+    choices = STRIDED[t]
+    ptype, prop, c, parts = choices[(cs >> 3) % len(choices)]
+    et, pt = PT.ARRAYS[t], PT.ARRAYS[ptype]
+    want = array_elems(a, t, n, cs, mode, affine)
+    if a.get("filler") is not None and len(a["filler"]) == n:
+        filler = [pt.make(list(v)) for v in a["filler"]]          # replay files carry the filler components too
+    else:
+        filler = gen_array_elems(ptype, n, cs ^ 0x7F4A7C15, "scaled" if mode == "nz" else mode, False) if n else []
+    w = et.n
+    parent = getattr(imath, ptype)(n)
+    for i in range(n):
+        pf = list(pt.flat(filler[i]))
+        pf[c * w:(c + 1) * w] = list(et.flat(want[i]))
+        try:
+            parent[i] = pt.make(pf)
+        except Exception:  # noqa: BLE001 - filler not constructible with these values: neutral filler
+            pf = [0] * len(pf)
+            pf[c * w:(c + 1) * w] = list(et.flat(want[i]))
+            parent[i] = pt.make(pf)
+    return parent, getattr(parent, prop)
 
 
 class World:
@@ -319,6 +368,10 @@ class World:
                     arr = PT.make_array(t, array_elems(a, t, total, cs, mode, affine))
                     self.tracked.append(("arg%d" % i, t, arr))
                 self.args.append(arr)
+            elif k == "strided":
+                parent, view = strided_view(a, t, n, cs, mode, affine)
+                self.tracked.append(("arg%d.parent" % i, type(parent).__name__, parent))
+                self.args.append(view)
             else:
                 arr = PT.make_array(t, array_elems(a, t, n, cs, mode, affine))
                 if k == "readonly":
@@ -767,6 +820,8 @@ def execute(plan, explicit=None):
         fired["probe.same_object_twice"] = 1
     if "readonly" in kinds:
         fired["probe.readonly_operand"] = 1
+    if "strided" in kinds:
+        fired["probe.strided_operand"] = 1
     out["hash"] = h.hexdigest()
     return out
 
